@@ -169,6 +169,19 @@ func asBs(v *xVal) ([]*XB, error) {
 	}
 	return out, nil
 }
+// asBsV: the same list as values (sources then reach batch functions as values, not pointers)
+func asBsV(v *xVal) ([]XB, error) {
+	if v.Kind == "fail" {
+		return nil, xErr(v)
+	}
+	out := []XB{}
+	for _, e := range v.List {
+		if b, _ := asB(e); b != nil {
+			out = append(out, *b)
+		}
+	}
+	return out, nil
+}
 func asUs(v *xVal) ([]*XU, error) {
 	if v.Kind == "fail" {
 		return nil, xErr(v)
@@ -240,6 +253,7 @@ func init() {
 	addField("A", "a2Ex", "a2", "A", "external", 0)
 	addField("A", "a2Xp", "a2", "A", "expensive", 0)
 	addField("A", "yEx", "y", "sc", "external", 0)
+	addField("A", "bvEx", "bv", "BsV", "external", 0)
 	// B
 	for _, m := range xModes[:4] {
 		addField("B", "p"+m.suffix, "p", "sc", m.mode, m.par)
@@ -257,6 +271,7 @@ func init() {
 	addField("Q", "u", "u", "U", "external", 0)
 	addField("Q", "us", "us", "Us", "external", 0)
 	addField("Q", "n", "n", "sc", "external", 0)
+	addField("Q", "bv", "bv", "BsV", "external", 0)
 	addField("Q", "aXp", "a", "A", "expensive", 0)
 }
 
@@ -334,6 +349,8 @@ func registerField(obj *schemabuilder.Object, f *xField) {
 			return out, batchEach(in, func(i batch.Index, s interface{}) error { v, e := asBs(get(nodeOf(s), src)); out[i] = v; return e })
 		}
 		regOne(obj, f, batchy, one, many, opts)
+	case "A:BsV":
+		obj.FieldFunc(f.Name, func(ctx context.Context, a *XA) ([]XB, error) { return asBsV(get(a.N, src)) }, opts...)
 	case "A:U":
 		one := func(ctx context.Context, a *XA) (*XU, error) { return asU(get(a.N, src)) }
 		many := func(ctx context.Context, in map[batch.Index]*XA) (map[batch.Index]*XU, error) {
@@ -480,6 +497,8 @@ func buildXSchema() *graphql.Schema {
 				q.FieldFunc(f.Name, func(ctx context.Context) (*XB, error) { return asB(get(qn(ctx), src)) }, opts...)
 			case "Bs":
 				q.FieldFunc(f.Name, func(ctx context.Context) ([]*XB, error) { return asBs(get(qn(ctx), src)) }, opts...)
+			case "BsV":
+				q.FieldFunc(f.Name, func(ctx context.Context) ([]XB, error) { return asBsV(get(qn(ctx), src)) }, opts...)
 			case "U":
 				q.FieldFunc(f.Name, func(ctx context.Context) (*XU, error) { return asU(get(qn(ctx), src)) }, opts...)
 			case "Us":
@@ -514,6 +533,8 @@ func xTyEnc(ty string) interface{} {
 		return map[string]interface{}{"nn": map[string]interface{}{"list": map[string]interface{}{"obj": 2}}}
 	case "Us":
 		return map[string]interface{}{"nn": map[string]interface{}{"list": map[string]interface{}{"union": 3}}}
+	case "BsV":
+		return map[string]interface{}{"nn": map[string]interface{}{"list": map[string]interface{}{"nn": map[string]interface{}{"obj": 2}}}}
 	}
 	return "scalar"
 }
@@ -623,6 +644,15 @@ func (g *xGen) val(ty string, depth int) *xVal {
 			t = "B"
 		}
 		return &xVal{Kind: "node", Node: g.node(t, depth-1)}
+	case "BsV":
+		v := &xVal{Kind: "list"}
+		if depth <= 0 {
+			return v
+		}
+		for i := g.r.Intn(6); i > 0; i-- {
+			v.List = append(v.List, &xVal{Kind: "node", Node: g.node("B", depth-1)})
+		}
+		return v
 	case "As", "Bs", "Us":
 		v := &xVal{Kind: "list"}
 		if depth <= 0 {
@@ -798,7 +828,7 @@ func (g *xQGen) selSet(typ string, depth int) *xSelSet {
 		switch f.Ty {
 		case "A", "B", "U":
 			sel.Sub = g.selSet(f.Ty, depth-1)
-		case "As", "Bs", "Us":
+		case "As", "Bs", "Us", "BsV":
 			sel.Sub = g.selSet(f.Ty[:1], depth-1)
 		}
 		ss.Sels = append(ss.Sels, sel)
@@ -820,7 +850,7 @@ func (g *xQGen) selSet(typ string, depth int) *xSelSet {
 			switch s.Field.Ty {
 			case "A", "B", "U":
 				dup.Sub = g.selSet(s.Field.Ty, depth-1)
-			case "As", "Bs", "Us":
+			case "As", "Bs", "Us", "BsV":
 				dup.Sub = g.selSet(s.Field.Ty[:1], depth-1)
 			}
 			ss.Sels = append(ss.Sels, dup)
